@@ -116,7 +116,7 @@ fn faulted_run(ctx: &mut Ctx, key_seed: u64, ops: &[Op], k: u64) -> Result<(), (
             world.lock().unwrap().fail_at = None;
             let files = crate::world::snapshot(&world);
             let empty = Model::new(true);
-            return match recover_and_match(files, &[&empty], true, key_seed, CMP_WRITABLE, 64, false) {
+            return match recover_and_match(files, &[&empty], true, key_seed, CMP_ALL, 64, false) {
                 Ok(_) => Ok(()),
                 Err(fl) => Err((format!("after-build-fault:{}", fl.sig), fl.detail)),
             };
@@ -151,7 +151,7 @@ fn faulted_run(ctx: &mut Ctx, key_seed: u64, ops: &[Op], k: u64) -> Result<(), (
                 sut.core = None;
                 let after = model_after(&before, op);
                 let files = crate::world::snapshot(&world);
-                let rec = recover_and_match(files, &[&before, &after], false, key_seed, CMP_WRITABLE, 64, false)
+                let rec = recover_and_match(files, &[&before, &after], false, key_seed, CMP_ALL, 64, false)
                     .map_err(|fl| (format!("after-{}-fault@{}.{}:{}", op.kind(), STORE_NAMES[d.store], d.kind, fl.sig), format!("op #{i} {:?} failed at storage op {k}; after reopen: {}", op, fl.detail)))?;
                 let mut s2 = rec.unwrap();
                 if s2.model == after && before != after {
@@ -160,7 +160,7 @@ fn faulted_run(ctx: &mut Ctx, key_seed: u64, ops: &[Op], k: u64) -> Result<(), (
                     ctx.count("recovered_before_state");
                 }
                 // rest of the history satisfies C01
-                s2.cmp_mask = CMP_WRITABLE | CMP_HAS;
+                s2.cmp_mask = CMP_ALL;
                 for (j, op2) in ops[i + 1..].iter().enumerate() {
                     // the history was generated for the un-faulted run; when the failed call was
                     // not applied a later clear may start at or beyond the length, which is
@@ -297,7 +297,7 @@ fn replica_faults(ctx: &mut Ctx, id: u64, r: &mut Rng) {
                             pair.replica.model = before.clone();
                             let o = observe(pair.replica.core(), 64);
                             let e = before.expected_like(&o);
-                            if diff(&o, &e, CMP_HAS).is_some() {
+                            if diff(&o, &e, CMP_HAS | CMP_CONTIG).is_some() {
                                 // try "after": redo the same plan on a twin to learn the after model
                                 let mut twin_model = before.clone();
                                 // after-state = before + this plan's effect, derived from the writer model
@@ -314,7 +314,7 @@ fn replica_faults(ctx: &mut Ctx, id: u64, r: &mut Rng) {
                                     }
                                 }
                                 let e2 = twin_model.expected_like(&o);
-                                if let Some((c, dd)) = diff(&o, &e2, CMP_HAS) {
+                                if let Some((c, dd)) = diff(&o, &e2, CMP_HAS | CMP_CONTIG) {
                                     return Err((format!("after-proof-fault@{}.{}:neither-before-nor-after:{c}", STORE_NAMES[d.store], d.kind), format!("plan {plan:?}: {dd}")));
                                 }
                                 pair.replica.model = twin_model;
@@ -330,7 +330,7 @@ fn replica_faults(ctx: &mut Ctx, id: u64, r: &mut Rng) {
                         }
                         // honest replication can still complete
                         pair.complete().map_err(|fl| (format!("after-fault:{}", fl.sig), fl.detail))?;
-                        pair.replica.check(CMP_HAS, 64, "after completion").map_err(|fl| (format!("after-fault:{}", fl.sig), fl.detail))?;
+                        pair.replica.check(CMP_HAS | CMP_CONTIG, 64, "after completion").map_err(|fl| (format!("after-fault:{}", fl.sig), fl.detail))?;
                         return Ok((0, 0));
                     }
                 }
@@ -353,7 +353,7 @@ fn replica_faults(ctx: &mut Ctx, id: u64, r: &mut Rng) {
                     }
                     pair.replica.world.lock().unwrap().fail_at = None;
                     pair.replica.reopen().map_err(|fl| (format!("after-replica-reopen-fault@{}.{}:{}", STORE_NAMES[d.store], d.kind, fl.sig), fl.detail))?;
-                    pair.replica.check(CMP_HAS, 64, "replica after failed reopen").map_err(|fl| (format!("after-replica-reopen-fault:{}", fl.sig), fl.detail))?;
+                    pair.replica.check(CMP_HAS | CMP_CONTIG, 64, "replica after failed reopen").map_err(|fl| (format!("after-replica-reopen-fault:{}", fl.sig), fl.detail))?;
                     pair.complete().map_err(|fl| (format!("after-fault:{}", fl.sig), fl.detail))?;
                     return Ok((0, 0));
                 }
